@@ -157,6 +157,12 @@ def build_ops(cfg):
         Op("generate_transformation", lambda w: generate_transformation(2, w[B][1].angmom_components_cart, w[B][1].angmom_components_sph, "left")),
         Op("parse_nwchem", lambda w: parsers.parse_nwchem(w["files"][0])),
         Op("parse_gbs", lambda w: parsers.parse_gbs(w["files"][1])),
+        Op("parse_nwchem, caller edits the result, parse again", lambda w: _parse_edit_parse(parsers.parse_nwchem, w["files"][0])),
+        Op("parse_gbs, caller edits the result, parse again", lambda w: _parse_edit_parse(parsers.parse_gbs, w["files"][1])),
+        Op("overlap, caller edits the result, overlap again", lambda w: _call_edit_call(lambda: overlap_integral(w[B]))),
+        Op("generate_transformation, caller edits the result, again",
+           lambda w: _call_edit_call(lambda: generate_transformation(2, w[B][1].angmom_components_cart, w[B][1].angmom_components_sph, "left"))),
+        Op("evaluate_basis, caller edits the result, again", lambda w: _call_edit_call(lambda: evaluate_basis(w[B], w["points"]))),
         Op("make_contractions(str)", lambda w: _shells_digest(parsers.make_contractions(w["basis_dict"], w["atoms"], w["atom_coords"], "p"))),
         Op("make_contractions(list)", lambda w: _shells_digest(parsers.make_contractions(w["basis_dict"], w["atoms"], w["atom_coords"], w["ct_list"]))),
         Op("make_contractions(tuple)", lambda w: _shells_digest(parsers.make_contractions(w["basis_dict"], w["atoms"], w["atom_coords"], w["ct_tuple"]))),
@@ -181,6 +187,13 @@ def build_ops(cfg):
         Op("INVALID esp(asymmetric matrix)", lambda w: electrostatic_potential(w[B], w["gam_asym"], w["points"], w["nuc_coords"], w["nuc_charges"]), "invalid"),
         Op("INVALID esp(charge count)", lambda w: electrostatic_potential(w[B], w["gam_sym"], w["points"], w["nuc_coords"], w["charges"]), "invalid"),
         Op("INVALID esp(matrix size with T)", lambda w: electrostatic_potential(w[B], w["gam_sym"], w["points"], w["nuc_coords"], w["nuc_charges"], transform=w["T_rect"]), "invalid"),
+        Op("INVALID esp(points with 2 columns)", lambda w: electrostatic_potential(w[B], w["gam_sym"], w["points"][:, :2], w["nuc_coords"], w["nuc_charges"]), "invalid"),
+        Op("INVALID esp(T of wrong width)", lambda w: electrostatic_potential(w[B], w["gam_sym"][:3, :3], w["points"], w["nuc_coords"], w["nuc_charges"], transform=w["T_bad"]), "invalid"),
+        Op("INVALID esp(complex points)", lambda w: electrostatic_potential(w[B], w["gam_sym"], w["points"].astype(complex), w["nuc_coords"], w["nuc_charges"]), "invalid"),
+        Op("INVALID point_charge(complex points)", lambda w: point_charge_integral(w[B], w["charge_coords"].astype(complex), w["charges"]), "invalid"),
+        Op("INVALID kinetic(T of wrong width)", lambda w: kinetic_energy_integral(w[B], transform=w["T_bad"]), "invalid"),
+        Op("INVALID eri(T of wrong width)", lambda w: electron_repulsion_integral(w[B][:2], transform=w["T_bad"]), "invalid"),
+        Op("INVALID evaluate_density(T of wrong width)", lambda w: dn.evaluate_density(w["gam_psd"][:3, :3], w[B], w["points"], transform=w["T_bad"]), "invalid"),
         Op("INVALID stress(alpha str)", lambda w: st.evaluate_stress_tensor(w["gam_sym"], w[B], w["points"], alpha="a"), "invalid"),
         Op("INVALID force(beta None)", lambda w: st.evaluate_ehrenfest_force(w["gam_sym"], w[B], w["points"], beta=None), "invalid"),
         Op("INVALID generate_transformation(labels)", lambda w: generate_transformation(1, w[B][0].angmom_components_cart, ("c1", "s-1", "c0"), "left"), "invalid"),
@@ -215,6 +228,38 @@ def build_ops(cfg):
         ops.append(Op("UPDATE shell2.exps := orig", lambda w: setattr(w["shells"][2], "exps", np.array([0.3, 1.9, 11.0])), "update", tg))
         ops.append(Op("RENORM shell2.assign_norm_cont()", lambda w: w["shells"][2].assign_norm_cont(), "renorm", tg))
     return ops
+
+
+def _parse_edit_parse(parser, path):
+    """the object returned to the caller belongs to the caller: editing it must not affect a later parse"""
+    first = parser(path)
+    import copy as _c
+    ref = _c.deepcopy(first)
+    for k in list(first):
+        first[k].clear()
+    first["Xx"] = []
+    second = parser(path)
+    return (ref, second, _same_parsed(ref, second))
+
+
+def _same_parsed(a, b):
+    if list(a.keys()) != list(b.keys()):
+        return False
+    for k in a:
+        if len(a[k]) != len(b[k]):
+            return False
+        for x, y in zip(a[k], b[k]):
+            if x[0] != y[0] or not np.array_equal(x[1], y[1]) or not np.array_equal(x[2], y[2]):
+                return False
+    return True
+
+
+def _call_edit_call(fn):
+    first = fn()
+    ref = first.copy()
+    first[...] = 7.0
+    second = fn()
+    return (ref, second, bool(np.array_equal(ref, second)))
 
 
 def _shells_digest(shells):
